@@ -473,6 +473,15 @@ func (p *Prog) failArms(fn *ssa.Function, ifs []ifInfo, guard []Atom, effectSite
 					if rb.Parent() != fn {
 						continue // a spliced helper's return continues in fn
 					}
+					if mes := p.mergedExits(x, in); mes != nil {
+						// judged per predecessor that the fail arm can come through
+						for _, me := range mes {
+							if reach[me.pred] && me.kind != "error" {
+								return false, fmt.Sprintf("fail arm of %q at %s reaches a non-error exit at %s (kind %s)", ii.atom.Key, p.instrPos(ii.in), p.instrPos(in), me.kind)
+							}
+						}
+						continue
+					}
 					if k := p.exitKind(x, in); k != "error" {
 						return false, fmt.Sprintf("fail arm of %q at %s reaches a non-error return at %s (kind %s)", ii.atom.Key, p.instrPos(ii.in), p.instrPos(in), k)
 					}
@@ -507,13 +516,95 @@ func (p *Prog) pathString(path []*ssa.BasicBlock) string {
 	return strings.Join(parts, " -> ")
 }
 
-// returnsOf lists return instructions of fn by kind.
+// mergedExit is one way into a return whose results are phis of its own block
+// (`if c { res = X } else { err = E }; return res, err`): the predecessor, the result
+// values it contributes, and the instruction whose reachability stands for that exit (the
+// predecessor's unconditional jump; the return itself when the edge is conditional).
+type mergedExit struct {
+	pred *ssa.BasicBlock
+	vals []ssa.Value
+	at   ssa.Instruction
+	kind string
+}
+
+// mergedExits splits a return fed by phis of its own (phi-only) block by predecessor.
+// nil when the return is not of that shape.
+func (p *Prog) mergedExits(x *TX, ret *ssa.Return) []mergedExit {
+	b := ret.Block()
+	hasPhi := false
+	for _, in := range b.Instrs {
+		switch in.(type) {
+		case *ssa.Phi:
+			hasPhi = true
+		case *ssa.Return, *ssa.DebugRef:
+		default:
+			return nil
+		}
+	}
+	if !hasPhi || len(b.Preds) < 2 {
+		return nil
+	}
+	uses := false
+	for _, rv := range ret.Results {
+		if phi, ok := rv.(*ssa.Phi); ok && phi.Block() == b {
+			uses = true
+		}
+	}
+	if !uses {
+		return nil
+	}
+	var out []mergedExit
+	for i, pred := range b.Preds {
+		me := mergedExit{pred: pred, at: ret}
+		last := pred.Instrs[len(pred.Instrs)-1]
+		if _, isJump := last.(*ssa.Jump); isJump {
+			me.at = last
+		}
+		for _, rv := range ret.Results {
+			if phi, ok := rv.(*ssa.Phi); ok && phi.Block() == b {
+				me.vals = append(me.vals, phi.Edges[i])
+			} else {
+				me.vals = append(me.vals, rv)
+			}
+		}
+		me.kind = "plain"
+		if len(me.vals) > 0 && isErrorType(me.vals[len(me.vals)-1].Type()) {
+			ev := me.vals[len(me.vals)-1]
+			switch {
+			case isNilConst(ev):
+				me.kind = "ok"
+			case p.nonNilErr(x, ev, last, 0):
+				me.kind = "error"
+			default:
+				me.kind = "maybe"
+			}
+		}
+		out = append(out, me)
+	}
+	return out
+}
+
+func isNilConst(v ssa.Value) bool {
+	c, ok := v.(*ssa.Const)
+	return ok && c.Value == nil
+}
+
+// returnsOf lists return instructions of fn by kind. A phi-merged return contributes, as
+// success-capable exits, the jumps of the predecessors that bring a possibly-nil error.
 func (p *Prog) returnsOf(fn *ssa.Function) (all []*ssa.Return, successCapable []ssa.Instruction) {
 	x := p.tx(fn)
 	for _, b := range fn.Blocks {
 		for _, in := range b.Instrs {
 			if r, ok := in.(*ssa.Return); ok {
 				all = append(all, r)
+				if mes := p.mergedExits(x, r); mes != nil {
+					for _, me := range mes {
+						if me.kind != "error" {
+							successCapable = append(successCapable, me.at)
+						}
+					}
+					continue
+				}
 				if k := p.exitKind(x, r); k != "error" {
 					successCapable = append(successCapable, r)
 				}
